@@ -1,6 +1,7 @@
 """Property plug-ins: per property, the theorem module, the correspondence generators, the
 non-triviality rule, the spec oracle used when searching for a failing input."""
 import os
+import core
 
 COMMON_TRUSTED = [
     "Lean 4.33.0 kernel (axioms per theorem listed under coverage.axioms; allowed: propext, Classical.choice, Quot.sound)",
@@ -147,7 +148,7 @@ class C09(Prop):
                     for d in NINE:
                         for s in range(1, 13):
                             out.append(f"K {a} {b} {c} {d} {s}")
-        n = 150000 if tier == "quick" else 4000000
+        n = core.q(tier, 150000, 4000000)
         for _ in range(n):
             m = rng.randint(0, 2)
             if m == 0:
@@ -384,7 +385,7 @@ class C11(Prop):
                 for pos in range(64):
                     if tier == "thorough" or pos in (0, 1, 63) or (q * 31 + lvl * 7 + pos) % 97 == 0:
                         out.append(f"L {q} - {pos},{lvl}")
-        for _ in range(3000 if tier == "quick" else 60000):
+        for _ in range(core.q(tier, 3000, 60000)):
             q = rng.randint(1, 31)
             dc = rng.choice(["-", str(rng.choice([1, 2, 127, 129, 254, 255, rng.randint(1, 254)]))])
             if dc == "128":
@@ -440,7 +441,7 @@ class C12(Prop):
                 for c in vals:
                     out.append(f"MED {a} {b} {c}")
         # UMV variants
-        for _ in range(2000 if tier == "quick" else 40000):
+        for _ in range(core.q(tier, 2000, 40000)):
             plus = rng.randint(0, 1)
             umv = rng.randint(0, 1)
             mvr = rng.choice(["E", "U", "-"])
@@ -453,7 +454,7 @@ class C12(Prop):
         # candidate predictors
         def mv4(zero=False):
             return [0] * 8 if zero else [rng.randint(-32, 31) for _ in range(8)]
-        reps = 2 if tier == "quick" else 12
+        reps = core.q(tier, 2, 12)
         for w in (1, 2, 3, 5):
             for n in range(0, 3 * w):
                 for idx in range(4):
@@ -515,7 +516,7 @@ class C10(Prop):
         import core
         out = []
         self._ranges = []
-        plan = [(k, 1, 700 if tier == "quick" else 10000) for k in range(6)]
+        plan = [(k, 1, core.q(tier, 700, 10000)) for k in range(6)]
         if tier == "thorough":
             plan += [(k, s, 2000) for k in range(6) for s in (2, 3, 1180)]
         for (k, seed, n) in plan:
@@ -529,7 +530,7 @@ class C10(Prop):
                 continue
             for pred in ((0, 255) if tier == "quick" and v % 5 else (0, 128, 255)):
                 out.append(f"T 1 8 64 {pred} D:{v}")
-        for _ in range(3000 if tier == "quick" else 40000):
+        for _ in range(core.q(tier, 3000, 40000)):
             shape = rng.choice("HV")
             kind = rng.randint(0, 2)
             if kind == 0:
@@ -540,7 +541,7 @@ class C10(Prop):
                 vals = [rng.choice([-2048, 2047, 0, 1, -1]) for _ in range(8)]
             out.append(f"T 1 8 64 {rng.choice([0, 128, 255])} {shape}:{','.join(map(str, vals))}")
         # cropped / multi-block planes (shapes mixed, sizes not multiples of 8)
-        for _ in range(300 if tier == "quick" else 3000):
+        for _ in range(core.q(tier, 300, 3000)):
             bpl = rng.randint(1, 3)
             rows = rng.randint(1, 2)
             spl = rng.randint(max(1, bpl * 8 - 7), bpl * 8)
